@@ -82,8 +82,10 @@ Definition init_state (pf : string -> option string) js (t : term) : fstate :=
   else if String.eqb k "corrupt" then FCorrupt
   else match write_settings js flds (settings_of (gn t 1)) with Some st => st | None => FCorrupt end.
 
+(* "save" / "delete" and, with the write to disk failing, "save!" / "delete!" *)
 Definition sop_of (t : term) : sop :=
-  if String.eqb (gs (gn t 0)) "save" then OpSave (values_of (gn t 1)) else OpDelete (gs (gn t 1)).
+  if has_prefix "save" (gs (gn t 0)) then OpSave (values_of (gn t 1)) else OpDelete (gs (gn t 1)).
+Definition io_ok_of (t : term) : bool := negb (has_suffix "!" (gs (gn t 0))).
 
 Definition of_menu (m : list (string * values * bool * bool)) : term :=
   TL (map (fun e => match e with (n, q, cur, user) => TL [TS n; of_values q; of_bool cur; of_bool user; of_bool true] end) m).
@@ -95,8 +97,8 @@ Fixpoint run_seq pf js (cur : config) (st : fstate) (ops : list term) : list ter
       if String.eqb (gs (gn o 0)) "menu" then
         TL [TZ 0; of_menu (config_menu flds cur st (values_of (gn o 1)))] :: run_seq pf js cur st r
       else
-        let '(code, st') := run_sop pf js flds cur st (sop_of o) in
-        TL [TZ code; of_state cur st'] :: run_seq pf js cur st' r
+        let '(code, st') := run_sop_io pf js flds cur st (sop_of o) (io_ok_of o) in
+        TL [TZ code; of_state cur st'; TZ 1] :: run_seq pf js cur st' r
   end.
 
 (* all orders of a list *)
@@ -160,6 +162,24 @@ Definition spec_fs (i o0 : term) : bool :=
   && (if failed then term_eqb (gn o 0) old || term_eqb (gn o 0) new else term_eqb (gn o 0) new)
   && forallb (fun kc => term_eqb (gn kc 1) old || term_eqb (gn kc 1) new) (gl (gn o 1)).
 
+(* "burst": requests with pairwise distinct names commute, so every serial order leaves the same
+   configurations; states are compared with their entries sorted by name *)
+Fixpoint ins_entry (e : term) (l : list term) : list term :=
+  match l with
+  | [] => [e]
+  | x :: r => if str_ltb (gs (gn x 0)) (gs (gn e 0)) then x :: ins_entry e r else e :: l
+  end.
+Definition sort_state (t : term) : term :=
+  if String.eqb (gs (gn t 0)) "good" then TL [TS "good"; TL (fold_right ins_entry [] (gl (gn t 1)))] else t.
+Definition burst_names (i : term) : list string :=
+  map (fun nc => gs (gn nc 0)) (gl (gn (gn i 4) 1)) ++
+  flat_map (fun o => if has_prefix "save" (gs (gn o 0)) then [vget (values_of (gn o 1)) "config"] else []) (gl (gn i 5)).
+Definition burst_outcome (i : term) : term :=
+  let pf := pf_of (gn i 1) in
+  let js := js_of (gn i 2) in
+  let cur := cfg_of (gn i 3) in
+  sort_state (of_state cur (run_sops pf js flds cur (init_state pf js (gn i 4)) (map sop_of (gl (gn i 5))))).
+
 Definition run_C19 (i : term) : term :=
   let op := gs (gn i 0) in
   let pf := pf_of (gn i 1) in
@@ -175,6 +195,7 @@ Definition run_C19 (i : term) : term :=
   else if String.eqb op "conc" then
     let js := js_of (gn i 2) in
     TL (conc_outcomes pf js (cfg_of (gn i 3)) (init_state pf js (gn i 4)) (map sop_of (gl (gn i 5))))
+  else if String.eqb op "burst" then burst_outcome i
   else if String.eqb op "fs" then
     run_fs i
   else TL [TS "unknown-op"].
@@ -182,6 +203,7 @@ Definition run_C19 (i : term) : term :=
 Definition eqv_C19 (i m o : term) : bool :=
   let op := gs (gn i 0) in
   if String.eqb op "conc" then existsb (fun x => term_eqb x o) (gl m)
+  else if String.eqb op "burst" then negb (nodup_str (burst_names i)) || term_eqb m (sort_state o)
   else if String.eqb op "fs" then term_eqb m (deref_obs i o)
   else term_eqb m o.
 
@@ -204,10 +226,12 @@ Fixpoint spec_seq pf (cur : config) (prev : term) (ops obs : list term) : bool :
       else
         let code := gz (gn b 0) in
         let after := gn b 1 in
-        (if code =? 0 then
+        gb (gn b 2)                                    (* what the process reports is what the file holds *)
+        && (io_ok_of o || negb (code =? 0))          (* a write that failed is reported *)
+        && (if code =? 0 then
            match state_settings prev, state_settings after with
            | Some before, Some aft =>
-               if String.eqb kind "save" then
+               if has_prefix "save" kind then
                  let q := values_of (gn o 1) in
                  match apply_url_go pf flds cur q with
                  | Ok c => save_ok flds (vget q "config") c before aft
@@ -243,6 +267,9 @@ Definition spec_C19 (i o : term) : bool :=
     let js := js_of (gn i 2) in
     let cur := cfg_of (gn i 3) in
     existsb (fun x => term_eqb x o) (conc_outcomes pf js cur (init_state pf js (gn i 4)) (map sop_of (gl (gn i 5))))
+  else if String.eqb op "burst" then
+    (* all names distinct: the requests commute, "as if one after another" = this set of entries *)
+    negb (nodup_str (burst_names i)) || term_eqb (burst_outcome i) (sort_state o)
   else if String.eqb op "fs" then
     spec_fs i o
   else true.
